@@ -8,8 +8,9 @@
      events [{t, e}]              interior energy from the library's EnergyDetector, units 1e-9 * peak (floor)
      winSteps, margin, courantMilli, winDiffPpb, winRefPos
                                   window length, free cells added on every side in the reference domain, Courant
-                                  number * 1000 (ceil), relative energy of (small - reference) in the recorded
-                                  region over the window in ppb (floor), reference energy > 0
+                                  number * 1000 (ceil), relative energy of (small - reference) over the whole free
+                                  region and the window in ppb (floor), reference energy > 0
+     slabDiffPpb                  the same ratio restricted to the 2-cell slab next to the layer under test (diagnostic)
    TLC walks the events through the phase machine Pulse -> Ringdown -> Quiet of AbsorbDefs and evaluates the
    statement's inequalities; the harness only runs the simulations and scales the numbers.                *)
 EXTENDS Integers, Sequences, FiniteSets, TLC, TLCExt, Json, IOUtils
@@ -47,6 +48,8 @@ Verdict(c) ==
     \* not part of the statement (reported as spec drift): the placed layers are not the configured ones
     ELSE IF \E i \in 1..6 : c.thickFaces[i] # c.thick THEN "layers: a placed layer does not have the configured thickness"
     ELSE IF \E i \in 1..6 : c.kappaEndFaces[i] # D!KappaEndMilli(c.grading) THEN "layers: a placed layer does not have the configured kappa grading"
+    \* diagnostic, stricter than the statement (spec drift): the same ratio restricted to the 2-cell slab next to the layer under test
+    ELSE IF ~D!DiffOK(c.slabDiffPpb) THEN "slab: difference to the reference restricted to the slab next to the layer under test is 1e-4 or more"
     ELSE "ok"
 TInit == ci = 1 /\ TLCSet(1, << >>)
 TNext == /\ ci <= Len(Cases)
